@@ -81,6 +81,10 @@ pub enum Variant {
     Rc11,
     /// SeqCst accesses demoted to acquire / release / acq-rel; SeqCst fences stay SC
     Rc11Minus,
+    /// RC11 with one operational restriction, used only to *attribute* known findings: a
+    /// read-modify-write (and a failing compare_exchange) reads the store that is last in
+    /// modification order among the stores generated so far (what loom does, defects D12/D15)
+    Rc11RmwNewest,
 }
 
 pub fn supported(p: &Program) -> bool {
@@ -317,6 +321,9 @@ fn succ(p: &Program, s: &XSt, t: usize, variant: Variant) -> Vec<XSt> {
                 if i < fl || !can_insert(s, a, i + 1) {
                     continue;
                 }
+                if variant == Variant::Rc11RmwNewest && i + 1 != s.mo[a].len() {
+                    continue;
+                }
                 let w = find(s, wk);
                 let mut s2 = s.clone();
                 let mut e = mk(EK::U, a, du(mo));
@@ -336,6 +343,9 @@ fn succ(p: &Program, s: &XSt, t: usize, variant: Variant) -> Vec<XSt> {
             let fl = floor(s, a);
             for (i, &wk) in s.mo[a].iter().enumerate() {
                 if i < fl {
+                    continue;
+                }
+                if variant == Variant::Rc11RmwNewest && i + 1 != s.mo[a].len() {
                     continue;
                 }
                 let w = find(s, wk);
